@@ -6,6 +6,7 @@ import subprocess
 import sys
 import uuid
 
+from harness.fieldp import NonFinite
 from harness import core, tlc, tracecheck, engine_explainer as E, gen_storages as GS, gen_explainer as G
 from checks import _explainer as X
 
@@ -77,6 +78,14 @@ def two_process_experiment(ctx, seed, quick):
     os.rmdir(work)
 
 
+def _dirty_heap(value):
+    """fill and free small NumPy buffers, so that memory handed out next (np.empty, uninitialised tails of reused
+    buffers) holds other garbage in the second replay than in the first: results must not depend on it"""
+    import numpy as np
+    junk = [np.full(k, value) for k in range(1, 40) for _ in range(4)]
+    del junk
+
+
 def same_process_twice(ctx, rng, quick):
     """the same seeded scenario twice in one process, other objects used in between"""
     n = 0
@@ -85,10 +94,17 @@ def same_process_twice(ctx, rng, quick):
         sc.numeric = "float"
         sc.companion = False
         try:
+            _dirty_heap(7.5e300)
             t1, x1 = G.run_scenario(sc, keep_raw=True)
             G.run_scenario(G.random_scenario(rng, quickness=1))        # something else in between
+            _dirty_heap(float("nan"))
             t2, x2 = G.run_scenario(sc, keep_raw=True)
         except (G.ConstructError, G.NotObservable):
+            continue
+        except NonFinite as e:
+            n += 1
+            ctx.violation("repro.same_process", E._config_key(sc), "a seeded replay of [%s] (finite inputs) reached the non-finite "
+                          "estimate %s - the result depends on what the process did before" % (sc.key(), e), {"scenario": sc.to_json()})
             continue
         n += 1
         a = [(str(r["imp"]), str(r["var"]), str(r["ml"]), str(r["mo"])) for r in x1["raws"]]
